@@ -1049,7 +1049,13 @@ func c19Stress(c *harness.Ctx) {
 				return
 			default:
 			}
-			if i%2 == 0 {
+			// SB, SA, SB, SA, ... and every fifth change repeats the schedule in force (a change that
+			// changes nothing is a change all the same)
+			k := i - i/5
+			if i%5 == 4 {
+				k--
+			}
+			if k%2 == 0 {
 				sh.Factory.GasScheduleChange(world.CloneGasMap(SB))
 			} else {
 				sh.Factory.GasScheduleChange(world.CloneGasMap(SA))
@@ -1100,7 +1106,28 @@ func c19Stress(c *harness.Ctx) {
 	}
 	time.Sleep(dur)
 	close(stop)
-	wg.Wait()
+	// every goroutine finishes its current operation (microseconds) and leaves. One that has not
+	// left a full minute after the stop is blocked for good: a lock taken and never released
+	done := make(chan struct{})
+	go func() { wg.Wait(); close(done) }()
+	select {
+	case <-done:
+	case <-time.After(60 * time.Second):
+		buf := make([]byte, 1<<20)
+		buf = buf[:runtime.Stack(buf, true)]
+		var stuck []string
+		for _, g := range strings.Split(string(buf), "\n\n") {
+			if strings.Contains(g, "/repo/") && (strings.Contains(g, "sync.(*RWMutex)") || strings.Contains(g, "sync.(*Mutex)") || strings.Contains(g, "semacquire")) {
+				stuck = append(stuck, truncate(g, 900))
+			}
+		}
+		if len(stuck) > 0 {
+			R.Violate("C19:blocked-forever", fmt.Sprintf("%d goroutines are still blocked on a lock inside the library 60 s after the stress stopped (a lock that is never released):\n%s", len(stuck), stuck[0]), nil)
+		} else {
+			R.Note("stress goroutines did not finish within 60 s, none blocked inside the library")
+		}
+		return
+	}
 	for _, m := range covers {
 		for k, v := range m {
 			R.CoverN(k, v)
